@@ -3,7 +3,7 @@
 import glob, json, os, re
 V = os.path.dirname(os.path.dirname(os.path.abspath(__file__)))
 rows = []
-n = first = pre = 0
+n = first = pre = gaps = 0
 for d in sorted(glob.glob(os.path.join(V, "seeded", "*"))):
     m = json.load(open(os.path.join(d, "meta.json")))
     sid = os.path.basename(d)
@@ -11,7 +11,9 @@ for d in sorted(glob.glob(os.path.join(V, "seeded", "*"))):
     if len(summ) > 240:
         summ = summ[:237] + "..."
     ran = m.get("ran", "")
-    if "would have been MISSED" in ran:
+    if not m.get("caught_by"):
+        tag = "**not caught** (known gap, section 8)"; gaps += 1
+    elif "would have been MISSED" in ran:
         tag = " (strengthened after reading the summary, before the first run)"; pre += 1
     elif "first run:" in ran or "MISSED" in ran:
         tag = " (after strengthening)"; first += 1
@@ -19,7 +21,7 @@ for d in sorted(glob.glob(os.path.join(V, "seeded", "*"))):
         tag = ""
     n += 1
     rows.append("| %s | %s | %s%s |" % (sid, summ, ", ".join(m.get("caught_by", [])), tag))
-table = "| seed | what the change does | caught by |\n|---|---|---|\n" + "\n".join(rows) + "\n\nTotals: %d seeds; %d caught by the checks as they stood when the seed arrived; %d caught after a check was strengthened following a miss; %d where the check was strengthened after reading the sub-agent's summary and before the first run (third and eighth waves).\n" % (n, n - first - pre, first, pre)
+table = "| seed | what the change does | caught by |\n|---|---|---|\n" + "\n".join(rows) + "\n\nTotals: %d seeds; %d not caught (known gaps, section 8); %d caught by the checks as they stood when the seed arrived; %d caught after a check was strengthened following a miss; %d where the check was strengthened after reading the sub-agent's summary and before the first run (third and eighth waves).\n" % (n, gaps, n - first - pre - gaps, first, pre)
 p = os.path.join(V, "DESIGN.md")
 s = open(p).read()
 a = s.index("<!-- SEEDTABLE:BEGIN -->"); b = s.index("<!-- SEEDTABLE:END -->"); s = s[:a] + "<!-- SEEDTABLE:BEGIN -->\n" + table + s[b:]
